@@ -65,6 +65,28 @@ class Recorder(ProgressObserver):
         self._add("failed", section, scope, type(exception).__name__)
 
 
+class ObserverFault(Exception):
+    pass
+
+
+class FaultyObserver(Recorder):
+    """A composite member that fails in its own __enter__ or __exit__ (a display that cannot open / flush)."""
+
+    def __init__(self, where):
+        super().__init__()
+        self.where = where
+
+    def __enter__(self):
+        if self.where == "enter":
+            raise ObserverFault("observer cannot be entered")
+        super().__enter__()
+
+    def __exit__(self, exc_type, exc_val, exc_tb):
+        super().__exit__(exc_type, exc_val, exc_tb)
+        if self.where == "exit":
+            raise ObserverFault("observer failed while exiting")
+
+
 def gather_labels(a, out=None):
     if out is None:
         out = []
@@ -196,8 +218,12 @@ def cases(draw, max_nodes):
         for _ in range(draw(st.integers(0, 2))):
             pre.append(draw(st.sampled_from(["run", "delete_some", "update_some"])))
     tkind = draw(st.sampled_from([None, None, None, "copy", "copy_add", "copy_wrap", "inplace_add", "inplace_wrap"]))
-    return {"spec": spec, "cfg": cfg, "registry": use_reg, "pre": pre, "nobs": draw(st.integers(1, 3)),
-            "sched": draw(harness.schedules()), "transform": tkind}
+    nobs = draw(st.integers(1, 3))
+    faulty = None
+    if draw(st.integers(0, 7)) == 0:
+        faulty = {"pos": draw(st.integers(0, nobs)), "where": draw(st.sampled_from(["enter", "exit"]))}
+    return {"spec": spec, "cfg": cfg, "registry": use_reg, "pre": pre, "nobs": nobs,
+            "sched": draw(harness.schedules()), "transform": tkind, "faulty": faulty}
 
 
 def validate_sequence(events, success):
@@ -264,7 +290,12 @@ def check_case(ctx, case, record=True):
                         w.set_source(i)
         w.reset_log()
     recs = [Recorder() for _ in range(case["nobs"])]
-    if len(recs) == 1:
+    faulty = case.get("faulty")
+    if faulty:
+        members = list(recs)
+        members.insert(faulty["pos"], FaultyObserver(faulty["where"]))
+        progress = tuple(Progress(lambda r=r: r) for r in members)
+    elif len(recs) == 1:
         progress = Progress(lambda: recs[0])
     else:
         progress = tuple(Progress(lambda r=r: r) for r in recs)
@@ -279,6 +310,33 @@ def check_case(ctx, case, record=True):
     xkw = {"transform_physical": w.transform(tkind)} if tkind else {}
     out = harness.execute(lambda: w.run(cfg, registry=case["registry"], progress=progress, **xkw), sc)
     case2 = dict(case, sched=harness.with_trace(sc, out))
+    if faulty:
+        # one member of the composite fails in its own __enter__/__exit__: every member that was entered is
+        # still exited exactly once, last, and the entered members saw the same notifications
+        if record:
+            ctx.case(case, True, common.sched_classes(case, out) + [f"faulty_member:{faulty['where']}", f"status:{out.status}"])
+        if out.verdict or out.uncaught:
+            ctx.violation(case2, f"scheduler verdict {out.verdict} {out.verdict_info}; uncaught {out.uncaught!r}")
+        if out.status == "ok":
+            ctx.violation(case2, "an observer failed in __enter__/__exit__ but run returned normally")
+        entered = []
+        for ri, r in enumerate(recs):
+            evs = r.events
+            if not evs:
+                continue
+            if evs[0][0] != "enter":
+                ctx.violation(case2, f"observer {ri} (composite with a failing member): notified without being entered: {evs[:3]}")
+            if sum(1 for e in evs if e[0] == "exit") != 1 or evs[-1][0] != "exit":
+                ctx.violation(case2, f"observer {ri} (composite with a member failing in __{faulty['where']}__) was entered but "
+                                     f"not exited exactly once at the end: {[e[0] for e in evs][-6:]}")
+            entered.append(r)
+        def norm(evs):  # which exception a member sees in __exit__ depends on its position relative to the failing one
+            return collections.Counter(repr(e[:1] if e[0] == "exit" else e) for e in evs)
+
+        for r in entered[1:]:
+            if norm(r.events) != norm(entered[0].events):
+                ctx.violation(case2, "entered members of the composite received different notifications")
+        return
     exp_run = expected_run(spec, need, output, use_reg)
     extra_exec = set()
     if tkind and tkind.endswith("add"):
